@@ -170,7 +170,10 @@ def _walk(ctx, fn, cfg, path, env0=None, keep=()):
             for nx in reversed([n_ for n_ in ast.walk(root) if isinstance(n_, ast.NamedExpr) and isinstance(n_.target, ast.Name)]):
                 env[nx.target.id] = Evaluator(env=env, const_of=const_of).ev(nx.value)
         if node.kind == "stmt":
-            if isinstance(st, ast.Assign) and len(st.targets) == 1 and isinstance(st.targets[0], (ast.Tuple, ast.List)) \
+            from ..core.symexec import dict_update_stmt
+            if dict_update_stmt(st, env, ev):
+                pass
+            elif isinstance(st, ast.Assign) and len(st.targets) == 1 and isinstance(st.targets[0], (ast.Tuple, ast.List)) \
                     and isinstance(st.value, (ast.ListComp, ast.GeneratorExp)) and len(st.value.generators) == 1 \
                     and not st.value.generators[0].ifs and isinstance(st.value.generators[0].target, ast.Name):
                 g_ = st.value.generators[0]
